@@ -572,6 +572,9 @@ pub fn handle_frame(w: &mut World, conn: ConnId, frame: ReqFrame) {
     };
 
     let marker = marker_of(w, node, &req);
+    if let Some(m) = marker {
+        w.conns[conn].cql.outstanding_markers.insert(stream, m);
+    }
     let rq = ReqInfo {
         seq,
         t,
